@@ -68,7 +68,8 @@ func LenAlts(v []byte) []Alt {
 //
 //	(1) every single-bit flip of its K-byte representative,
 //	(2) every other trailer byte,
-//	(3) every PS byte set to 01 / 80 / FF and the separator set to 00/02/03/81/FF (DB re-masked under the honest H),
+//	(3) every PS byte set to 81 / FF and the separator set to 00/02/03/81/FF (DB re-masked under the honest H;
+//	    the single-bit ones coincide with (1) and are dropped),
 //	(4) the must-be-zero leftmost bits all set; DB not cleared after masking,
 //	(5) well-formed encodings with salt lengths {0,1,47,48,49,max-1,max} other than the base,
 //	    and DB one byte longer/shorter (salt length changed, PS kept),
@@ -115,7 +116,7 @@ func EMCases(k *Key, h crypto.Hash, digest, baseSalt []byte) (out []Alt, skipped
 	db, _ := DB(h, emBits, baseSalt)
 	psLen := len(db) - 1 - len(baseSalt)
 	for i := 0; i < psLen; i++ {
-		for _, v := range []byte{0x01, 0x80, 0xff} {
+		for _, v := range []byte{0x81, 0xff} { // 01, 80 etc. are single-bit flips of EM, already in (1)
 			d := append([]byte{}, db...)
 			d[i] = v
 			add("PS byte non-zero", fmt.Sprintf("ps[%d]=%02x", i, v), Assemble(h, emBits, d, H, 0xbc, true))
